@@ -134,6 +134,20 @@ def table():
         print("%-8s %-4s detected by: %-30s missed by: %-20s %s" % (meta["id"], meta["property"], ",".join(det) or "-", ",".join(miss) or "-", meta.get("summary", "")[:110]))
 
 
+def table_md():
+    rows = []
+    for d in sorted(glob.glob(os.path.join(SEEDED, "*"))):
+        meta = json.load(open(os.path.join(d, "meta.json")))
+        det = [c for c, r in sorted(meta.get("detected_by", {}).items()) if r["exit"] == 1]
+        miss = [c for c, r in sorted(meta.get("detected_by", {}).items()) if r["exit"] != 1]
+        home = meta["property"]
+        hm = "yes" if home in det else ("NO" if home in miss else "not run")
+        rows.append("| %s | %s | %s | %s | %s | %s |" % (meta["id"], home, hm, ", ".join(det) or "-", ", ".join(miss) or "-", (meta.get("summary", "") or "").replace("|", "/")[:160]))
+    print("| id | property | caught by its own check | caught by | run but silent | change |")
+    print("|---|---|---|---|---|---|")
+    print("\n".join(rows))
+
+
 if __name__ == "__main__":
     a = sys.argv[1:]
     if a[0] == "ingest":
@@ -150,5 +164,7 @@ if __name__ == "__main__":
                 tier = a[k + 1]
                 ids = [i for i in ids if i != a[k + 1]]
         rerun(ids, checks, tier)
+    elif a[0] == "table-md":
+        table_md()
     else:
         table()
